@@ -782,6 +782,157 @@ def _first_rest_zip_idiom(fn) -> int:
     return count
 
 
+def _scalarise_map_lists(fn) -> int:
+    """flags = [pred(x) for x in xs] ... flags[i] ... any(flags)      ->   ... pred(xs[i]) ... any(pred(x) for x in xs)
+    if c: flags = [pred(x) for x in xs]  else: flags = [False] * len(xs)   ->   ... (pred(xs[i]) if c else False) ...
+    "Classify every element once" tables: a local bound (once, or once per arm of one if/else) to an element-wise map of a
+    list that the function never changes, and read only by position or through any()/all()/len(). Inside
+    `for i, x in enumerate(xs)` the element xs[i] is written `x`. The map expression may call functions: they are taken
+    to be pure predicates of their argument (that is what such a table is for)."""
+    if isinstance(fn, ast.Lambda):
+        return 0
+    own = list(walk_no_nested(fn))
+    stores: dict[str, int] = {}
+    for x in own:
+        if isinstance(x, ast.Name) and isinstance(x.ctx, (ast.Store, ast.Del)):
+            stores[x.id] = stores.get(x.id, 0) + 1
+    params = {a.arg for a in fn.args.posonlyargs + fn.args.args + fn.args.kwonlyargs}
+    MUT = ("append", "extend", "insert", "pop", "remove", "clear", "sort", "reverse")
+
+    def frozen_list(nm: str) -> bool:
+        if stores.get(nm, 0) > (0 if nm in params else 1):
+            return False
+        for x in own:
+            if isinstance(x, ast.Attribute) and isinstance(x.value, ast.Name) and x.value.id == nm and x.attr in MUT:
+                return False
+            if isinstance(x, ast.Subscript) and isinstance(x.value, ast.Name) and x.value.id == nm and isinstance(x.ctx, (ast.Store, ast.Del)):
+                return False
+        return True
+
+    def stable(e: ast.AST, bound: set[str]) -> bool:
+        for x in ast.walk(e):
+            if isinstance(x, ast.Name) and x.id not in bound and stores.get(x.id, 0) > 1:
+                return False
+            if isinstance(x, (ast.Lambda, ast.ListComp, ast.SetComp, ast.DictComp, ast.GeneratorExp, ast.NamedExpr, ast.Yield, ast.YieldFrom, ast.Await, ast.Starred)):
+                return False
+        return True
+
+    def as_map(v: ast.AST):
+        """(elt, var, L) for [elt for var in L]"""
+        if isinstance(v, ast.ListComp) and len(v.generators) == 1 and not v.generators[0].ifs and not v.generators[0].is_async \
+                and isinstance(v.generators[0].target, ast.Name) and isinstance(v.generators[0].iter, ast.Name):
+            g = v.generators[0]
+            if frozen_list(g.iter.id) and stable(v.elt, {g.target.id}):
+                return v.elt, g.target.id, g.iter.id
+        return None
+
+    def as_fill(v: ast.AST):
+        """(const, L) for [const] * len(L)"""
+        if isinstance(v, ast.BinOp) and isinstance(v.op, ast.Mult) and isinstance(v.left, ast.List) and len(v.left.elts) == 1 and isinstance(v.left.elts[0], ast.Constant) \
+                and isinstance(v.right, ast.Call) and isinstance(v.right.func, ast.Name) and v.right.func.id == "len" and len(v.right.args) == 1 \
+                and isinstance(v.right.args[0], ast.Name):
+            return v.left.elts[0], v.right.args[0].id
+        return None
+
+    def single_assign(lst: list) -> ast.Assign | None:
+        if len(lst) == 1 and isinstance(lst[0], ast.Assign) and len(lst[0].targets) == 1 and isinstance(lst[0].targets[0], ast.Name):
+            return lst[0]
+        return None
+
+    # candidates: name -> (builder(idx_expr) -> expr, any_builder | None, L, statements to drop)
+    cands: dict[str, tuple] = {}
+    for lst in _blocks_of(fn):
+        for st in lst:
+            if isinstance(st, ast.Assign) and len(st.targets) == 1 and isinstance(st.targets[0], ast.Name) and stores.get(st.targets[0].id) == 1:
+                m = as_map(st.value)
+                if m is not None:
+                    cands[st.targets[0].id] = ("map", m, None, None, st, lst)
+            if isinstance(st, ast.If) and st.orelse:
+                a, b = single_assign(st.body), single_assign(st.orelse)
+                if a is not None and b is not None and a.targets[0].id == b.targets[0].id and stores.get(a.targets[0].id) == 2 and stable(st.test, set()):
+                    ma, mb = as_map(a.value), as_map(b.value)
+                    fa, fb = as_fill(a.value), as_fill(b.value)
+                    if ma is not None and fb is not None and fb[1] == ma[2]:
+                        cands[a.targets[0].id] = ("cond", ma, st.test, fb[0], st, lst)
+                    elif mb is not None and fa is not None and fa[1] == mb[2]:
+                        cands[a.targets[0].id] = ("cond", mb, ast.UnaryOp(op=ast.Not(), operand=st.test), fa[0], st, lst)
+    if not cands:
+        return 0
+    # enumerate loops: (index name, element name, list name, loop)
+    enum_loops = []
+    for x in own:
+        if isinstance(x, ast.For) and isinstance(x.iter, ast.Call) and isinstance(x.iter.func, ast.Name) and x.iter.func.id == "enumerate" \
+                and len(x.iter.args) == 1 and not x.iter.keywords and isinstance(x.iter.args[0], ast.Name) \
+                and isinstance(x.target, ast.Tuple) and len(x.target.elts) == 2 and all(isinstance(t, ast.Name) for t in x.target.elts) \
+                and stores.get(x.target.elts[0].id) == 1 and stores.get(x.target.elts[1].id) == 1:
+            enum_loops.append((x.target.elts[0].id, x.target.elts[1].id, x.iter.args[0].id, x))
+    done = 0
+    for nm, (kind, (elt, var, L), cond, fill, st, lst) in cands.items():
+        uses = [x for x in own if isinstance(x, ast.Name) and x.id == nm and isinstance(x.ctx, ast.Load)]
+        plan = []
+        ok = True
+        for u in uses:
+            par = parent_of(fn, u)
+            if isinstance(par, ast.Subscript) and par.value is u and isinstance(par.ctx, ast.Load) and not isinstance(par.slice, ast.Slice):
+                plan.append(("idx", par))
+            elif isinstance(par, ast.Call) and isinstance(par.func, ast.Name) and par.func.id in ("any", "all") and par.args == [u] and not par.keywords and kind == "map":
+                plan.append(("anyall", par))
+            elif isinstance(par, ast.Call) and isinstance(par.func, ast.Name) and par.func.id == "len" and par.args == [u]:
+                plan.append(("len", par))
+            else:
+                ok = False
+        if not ok or not plan:
+            continue
+
+        def elem(idx: ast.expr, at: ast.AST) -> ast.expr:
+            if isinstance(idx, ast.Name):
+                for i_, x_, l_, loop in enum_loops:
+                    if l_ == L and i_ == idx.id and any(y is at for y in ast.walk(loop)):
+                        return ast.Name(id=x_, ctx=ast.Load())
+            return ast.Subscript(value=ast.Name(id=L, ctx=ast.Load()), slice=clone(idx), ctx=ast.Load())
+
+        for what, node in plan:
+            if what == "idx":
+                sub = elem(node.slice, node)
+                new = _Renamer_expr(clone(elt), var, sub)
+                if kind == "cond":
+                    new = ast.IfExp(test=clone(cond), body=new, orelse=clone(fill))
+            elif what == "anyall":
+                new = ast.Call(func=node.func, args=[ast.GeneratorExp(elt=clone(elt), generators=[ast.comprehension(
+                    target=ast.Name(id=var, ctx=ast.Store()), iter=ast.Name(id=L, ctx=ast.Load()), ifs=[], is_async=0)])], keywords=[])
+            else:
+                new = ast.Call(func=node.func, args=[ast.Name(id=L, ctx=ast.Load())], keywords=[])
+            _replace_node(fn, node, ast.copy_location(new, node))
+        if st in lst:
+            lst.remove(st)
+            if not lst:
+                lst.append(ast.copy_location(ast.Pass(), st))
+        done += 1
+    if done:
+        ast.fix_missing_locations(fn)
+    return done
+
+
+def _Renamer_expr(e: ast.expr, var: str, by: ast.expr) -> ast.expr:
+    class _S(ast.NodeTransformer):
+        def visit_Name(self, n):
+            return ast.copy_location(clone(by), n) if n.id == var and isinstance(n.ctx, ast.Load) else n
+    return _S().visit(e)
+
+
+def _replace_node(fn, old: ast.AST, new: ast.AST) -> None:
+    for x in ast.walk(fn):
+        for fld, val in ast.iter_fields(x):
+            if val is old:
+                setattr(x, fld, new)
+                return
+            if isinstance(val, list):
+                for i, v in enumerate(val):
+                    if v is old:
+                        val[i] = new
+                        return
+
+
 def _expand_dict_kwargs(fn) -> int:
     """shared = {"width": width, "semantic": semantic}; f(x, **shared)   ->   f(x, width=width, semantic=semantic)
     for a local bound once to a dict literal with constant string keys whose values are names never rebound in the function
@@ -1457,6 +1608,10 @@ def build_inlined_repo(root=None, keep: set[str] | None = None) -> tuple[Repo, d
         unrolled += al.count
         unrolled += _expand_dict_kwargs(fi.node)
         unrolled += _first_rest_zip_idiom(fi.node)
+        try:
+            unrolled += _scalarise_map_lists(fi.node)
+        except Exception:  # noqa: BLE001 - a normalisation that cannot be applied is simply not applied
+            pass
         pf = _PartialFolder(fi.node)
         if pf.partials:
             pf.visit(fi.node)
